@@ -3,6 +3,7 @@ import Ts.Spec.Bits
 import Ts.Spec.TableSpec
 import Ts.Lemmas.C17
 import Ts.Gen.Tables
+import Ts.Lemmas.RevC
 /-!
 # C17 — descriptor loops and typed descriptors
 
@@ -14,17 +15,61 @@ complete descriptor.  Registration, ISO-639 language, maximum-bitrate and AVC-vi
 expose exactly the bit fields the standard defines, and every tag value 0..=255 maps to the
 documented variant.
 
-All model results are `R.ok`: no index, slice, subtraction, `split_at`, `assert_eq!`, `u32`
-multiplication or fuel exhaustion is reachable.
+All model results are `R.ok`: no index, slice, subtraction, `split_at`, `assert_eq!` or `u32`
+multiplication panic is reachable.
+
+Fuel (review C): `descIter` / `languages` return `.ok []` when their fuel argument runs out, so
+`desc_iter_total` by itself is NOT evidence of termination.  Termination is carried by the equality
+with the fuel-free `specDescLoop` (`desc_iter_tiles`) and by `desc_iter_fuel_irrelevant` /
+`languages_fuel_irrelevant`: every fuel above the buffer length gives the same result.
+
+Scope and readings (review C):
+* Typed descriptors are verified as raw bytes / bit fields.  NOT modelled (so nothing is claimed
+  about them): `AudioType::from` (the model keeps the raw `audio_type` byte), `Language::code`
+  (latin-1 decoding; the model keeps the 3 raw bytes), `FormatIdentifier::from` / `is_format`
+  (external crate; the model keeps the 4 raw bytes).
+* `DescErr` carries no payload (`DescriptorError::NotEnoughData { tag, actual, expected }` etc. are
+  collapsed), so a typed payload that is too short and a trailing incomplete descriptor both appear
+  as `.err .notEnoughData`; `desc_iter_tiles` tells them apart by position.
+* `tag_variant_table` compares the code with the crate's own documentation; `tag_table_iso13818_1*`
+  compare it with ISO/IEC 13818-1 Table 2-45, typed in independently.
+* Not tied to regenerated constants (none exists): the fixed-part lengths 4, 3, 4 of
+  `typedMinLength` and the language item size 4.
 -/
 namespace Ts.Props.C17
-open Ts Ts.Spec Ts.Tables Ts.Spec.TableSpec Ts.Lemmas.C16 Ts.Lemmas.C17
+open Ts Ts.Spec Ts.Tables Ts.Spec.TableSpec Ts.Lemmas.C16 Ts.Lemmas.C17 Ts.Lemmas.RevC
 
 /-! ### the descriptor loop -/
 
-/-- termination and panic freedom -/
+/-- panic freedom: `descIterAll` returns `R.ok`.  WEAK as a termination statement: the model's
+iterator is fuel-bounded and returns `.ok []` on exhaustion, so this holds for any fuel-bounded
+function.  That the supplied fuel (`length + 1`) is never exhausted is `desc_iter_fuel_irrelevant`;
+that the items are exactly the descriptors of the buffer is `desc_iter_tiles`. -/
 theorem desc_iter_total (buf : Bytes) : ∃ items, descIterAll buf = .ok items :=
   ⟨_, descIter_eq _ buf (Nat.lt_succ_self _)⟩
+
+/-- **Fuel is never exhausted.**  For every fuel greater than the buffer length, `descIter` gives
+the result of `descIterAll` (which supplies `length + 1`), and one more unit of fuel changes
+nothing.  Hypothesis: `buf.length < fuel` (each step consumes at least 2 bytes, so this is generous). -/
+theorem desc_iter_fuel_irrelevant (buf : Bytes) (fuel : Nat) (h : buf.length < fuel) :
+    descIter fuel buf = descIterAll buf ∧ descIter fuel buf = descIter (fuel + 1) buf := by
+  unfold descIterAll
+  rw [descIter_eq fuel buf h, descIter_eq _ buf (Nat.lt_succ_self _), descIter_eq (fuel + 1) buf (by omega)]
+  exact ⟨rfl, rfl⟩
+
+/-- the same for `LanguageIterator` -/
+theorem languages_fuel_irrelevant (p : Bytes) (fuel : Nat) (h : p.length < fuel) :
+    languages fuel p = languagesAll p ∧ languages fuel p = languages (fuel + 1) p := by
+  unfold languagesAll
+  rw [languages_eq fuel p h, languages_eq _ p (Nat.lt_succ_self _), languages_eq (fuel + 1) p (by omega)]
+  exact ⟨rfl, rfl⟩
+
+/-- the hypothesis is needed, and exhaustion is silent: too little fuel yields a proper prefix,
+still as `R.ok` -/
+example : descIter 1 [0x02, 0x00, 0x03, 0x00] = .ok [.ok 2 []]
+    ∧ descIterAll [0x02, 0x00, 0x03, 0x00] = .ok [.ok 2 [], .ok 3 []] := ⟨rfl, rfl⟩
+example : descIter 1000 [0x02, 0x00, 0x03, 0x00] = descIterAll [0x02, 0x00, 0x03, 0x00] :=
+  (desc_iter_fuel_irrelevant _ 1000 (by decide)).1
 
 /-- the items are the complete descriptors of the loop, classified, followed by one error item iff
 trailing bytes remain; descriptors and trailing bytes re-encode to the buffer -/
@@ -98,6 +143,21 @@ theorem typed_min_lengths :
     typedMinLength 5 = 4 ∧ typedMinLength 14 = 3 ∧ typedMinLength 40 = 4 ∧ typedMinLength 10 = 0 :=
   ⟨rfl, rfl, rfl, rfl⟩
 
+/-- a direct `CoreDescriptors::from_bytes` call on ANY buffer: no panic; `BufferTooShort` below two
+bytes, `TagTooLongForBuffer` when `descriptor_length` overruns the buffer, otherwise the classified
+descriptor (bytes after the declared length are ignored) -/
+theorem core_from_bytes_exact (buf : Bytes) :
+    coreFromBytes buf = .ok (
+      if buf.length < 2 then .err .bufferTooShort
+      else if buf.length < 2 + byteD buf 1 then .err .tagTooLongForBuffer
+      else classify (byteD buf 0, (buf.drop 2).take (byteD buf 1))) :=
+  coreFromBytes_eq buf
+
+example : coreFromBytes [0x05] = .ok (.err .bufferTooShort)
+    ∧ coreFromBytes [0x05, 0x04, 0x43] = .ok (.err .tagTooLongForBuffer)
+    ∧ coreFromBytes [0x05, 0x01, 0x43, 0xff] = .ok (.err .notEnoughData)
+    ∧ coreFromBytes [0x02, 0x01, 0x43, 0xff] = .ok (.ok 2 [0x43]) := ⟨rfl, rfl, rfl, rfl⟩
+
 /-- `RegistrationDescriptor`: format_identifier = first 4 bytes, additional info = the rest -/
 theorem reg_fields_exact (p : Bytes) (h : typedNew 5 p = .ok (.ok ())) :
     regFields p = .ok (p.take 4, p.drop 4) :=
@@ -147,6 +207,93 @@ theorem tag_variant_table (tag : Nat) (h : tag < 256) : variantName tag = specVa
 /-- the table typed in from the documentation is itself well formed: its ranges are increasing and
 tile 0..=255 exactly, so `specVariant` never falls through to its default -/
 theorem variant_ranges_tile : rangesTile 0 variantRanges = true := by decide
+
+/-! ### tag → variant against ISO/IEC 13818-1 Table 2-45 (independent of the crate's docs and of `Ts/Gen`)
+
+Each row below is `(descriptor_tag, name in Table 2-45, variant of CoreDescriptors)`; the table is
+typed in from the standard (2015 edition numbering), NOT from the crate.  The correspondence
+"standard's name ↔ variant identifier" is by reading the two names (note the crate's misspelt
+`MontentLabeling` for content_labeling_descriptor, tag 36). -/
+
+/-- tags 2..18 and 27..44: the model maps each tag to the variant named after the descriptor the
+standard assigns to it -/
+theorem tag_table_iso13818_1 :
+    ∀ r ∈ ([ (2,  "video_stream_descriptor",                 "VideoStream"),
+             (3,  "audio_stream_descriptor",                 "AudioStream"),
+             (4,  "hierarchy_descriptor",                    "Hierarchy"),
+             (5,  "registration_descriptor",                 "Registration"),
+             (6,  "data_stream_alignment_descriptor",        "DataStreamAlignment"),
+             (7,  "target_background_grid_descriptor",       "TargetBackgroundGrid"),
+             (8,  "video_window_descriptor",                 "VideoWindow"),
+             (9,  "CA_descriptor",                           "CA"),
+             (10, "ISO_639_language_descriptor",             "ISO639Language"),
+             (11, "system_clock_descriptor",                 "SystemClock"),
+             (12, "multiplex_buffer_utilization_descriptor", "MultiplexBufferUtilization"),
+             (13, "copyright_descriptor",                    "Copyright"),
+             (14, "maximum_bitrate_descriptor",              "MaximumBitrate"),
+             (15, "private_data_indicator_descriptor",       "PrivateDataIndicator"),
+             (16, "smoothing_buffer_descriptor",             "SmoothingBuffer"),
+             (17, "STD_descriptor",                          "STD"),
+             (18, "IBP_descriptor",                          "IBP"),
+             (27, "MPEG-4_video_descriptor",                 "MPEG4Video"),
+             (28, "MPEG-4_audio_descriptor",                 "MPEG4Audio"),
+             (29, "IOD_descriptor",                          "IOD"),
+             (30, "SL_descriptor",                           "SL"),
+             (31, "FMC_descriptor",                          "FMC"),
+             (32, "external_ES_ID_descriptor",               "ExternalESID"),
+             (33, "MuxCode_descriptor",                      "MuxCode"),
+             (34, "FmxBufferSize_descriptor",                "FmxBufferSize"),
+             (35, "multiplexBuffer_descriptor",              "MultiplexBuffer"),
+             (36, "content_labeling_descriptor",             "MontentLabeling"),
+             (37, "metadata_pointer_descriptor",             "MetadataPointer"),
+             (38, "metadata_descriptor",                     "Metadata"),
+             (39, "metadata_STD_descriptor",                 "MetadataStd"),
+             (40, "AVC video descriptor",                    "AvcVideo"),
+             (41, "IPMP_descriptor",                         "IPMP"),
+             (42, "AVC timing and HRD descriptor",           "AvcTimingAndHrd"),
+             (43, "MPEG-2_AAC_audio_descriptor",             "Mpeg2AacAudio"),
+             (44, "FlexMuxTiming_descriptor",                "FlexMuxTiming") ] : List (Nat × String × String)),
+      variantName r.1 = r.2.2 := by decide +kernel
+
+
+/-- tags 45..56 and 63 (rows added by the amendments folded into the 2013/2015 editions) -/
+theorem tag_table_iso13818_1_tail :
+    ∀ r ∈ ([ (45, "MPEG-4_text_descriptor",                     "Mpeg4Text"),
+             (46, "MPEG-4_audio_extension_descriptor",          "Mpeg4AudioExtension"),
+             (47, "Auxiliary_video_stream_descriptor",          "AuxiliaryVideoStream"),
+             (48, "SVC extension descriptor",                   "SvcExtension"),
+             (49, "MVC extension descriptor",                   "MvcExtension"),
+             (50, "J2K video descriptor",                       "J2kVideo"),
+             (51, "MVC operation point descriptor",             "MvcOperationPoint"),
+             (52, "MPEG2_stereoscopic_video_format_descriptor", "Mpeg2StereoscopicVideoFormat"),
+             (53, "Stereoscopic_program_info_descriptor",       "StereoscopicProgramInfo"),
+             (54, "Stereoscopic_video_info_descriptor",         "StereoscopicVideoInfo"),
+             (55, "Transport_profile_descriptor",               "TransportProfile"),
+             (56, "HEVC video descriptor",                      "HevcVideo"),
+             (63, "Extension_descriptor",                       "Extension") ] : List (Nat × String × String)),
+      variantName r.1 = r.2.2 := by decide +kernel
+
+theorem tag_table_ranges_fin : ∀ t : Fin 256,
+    (19 ≤ t.val ∧ t.val ≤ 26 → variantName t.val = "IsoIec13818dash6") ∧
+    (64 ≤ t.val → variantName t.val = "UserPrivate") ∧
+    ((t.val = 0 ∨ t.val = 1 ∨ (57 ≤ t.val ∧ t.val ≤ 62)) → variantName t.val = "Reserved") := by
+  decide +kernel
+
+/-- the ranges of Table 2-45: 19..26 "Defined in ISO/IEC 13818-6", 64..255 "User Private",
+0 and 57..62 "Reserved".  DEVIATIONS from later editions, kept visible: tag 1 is "forbidden" (not
+"reserved") since the 2012 edition, and tags 57 (VVC video) and 58 (EVC video) are assigned in the
+2021 and later editions; the crate (and hence the model) files all three under `Reserved`. -/
+theorem tag_table_iso13818_1_ranges (t : Nat) (h : t < 256) :
+    (19 ≤ t ∧ t ≤ 26 → variantName t = "IsoIec13818dash6") ∧
+    (64 ≤ t → variantName t = "UserPrivate") ∧
+    ((t = 0 ∨ t = 1 ∨ (57 ≤ t ∧ t ≤ 62)) → variantName t = "Reserved") :=
+  tag_table_ranges_fin ⟨t, h⟩
+
+/-- the three tables together cover every tag 0..=255 (so no tag is left unchecked) -/
+theorem tag_table_covers : ∀ t : Fin 256,
+    (2 ≤ t.val ∧ t.val ≤ 18) ∨ (27 ≤ t.val ∧ t.val ≤ 44) ∨ (45 ≤ t.val ∧ t.val ≤ 56) ∨ t.val = 63
+      ∨ (19 ≤ t.val ∧ t.val ≤ 26) ∨ 64 ≤ t.val ∨ t.val = 0 ∨ t.val = 1 ∨ (57 ≤ t.val ∧ t.val ≤ 62) := by
+  decide +kernel
 
 /-! ### non-vacuity -/
 
